@@ -55,6 +55,9 @@ type vfSideShadow struct {
 	lastARwnd   [2]uint32
 	nARwnd      int
 	maxSackCumSeen uint32
+	ownAcked    map[uint32]bool // TSNs this side reported in gap blocks of SACKs it wrote
+	ownCum      uint32          // highest cumulative TSN this side wrote in a SACK
+	haveOwnCum  bool
 	admitCwnd   map[uint32]uint32
 	admitLim    map[uint32]uint32 // peer's advertised window in effect at admission (max of the last two delivered SACKs)
 	admitProbe  map[uint32]bool
@@ -142,6 +145,13 @@ func (s *vfSim) runMonitors(mc vfMonCfg) *vfMonOut {
 		why       string
 	}
 	var obls [2][]obl
+	var ces [2][]vfChunksEndEv
+	var ceIdx [2]int
+	s.mu.Lock()
+	for _, ce := range s.chunksEnd {
+		ces[ce.Side] = append(ces[ce.Side], ce)
+	}
+	s.mu.Unlock()
 	var closedAt [2]time.Duration
 	closedAt[0], closedAt[1] = -1, -1
 
@@ -427,9 +437,14 @@ func (s *vfSim) runMonitors(mc vfMonCfg) *vfMonOut {
 					}
 					nData++
 					if sh.got[c.TSN] {
-						gapOrDup = true
-						immWhy = "duplicate"
 						res.seen("dup-delivered")
+						// An earlier copy may have been dropped by the receiver (zero window, accept backlog): it is
+						// a duplicate for the receiver only if the receiver itself has acknowledged that TSN before.
+						if (sh.haveOwnCum && sna32LTE(c.TSN, sh.ownCum)) || sh.ownAcked[c.TSN] {
+							gapOrDup = true
+							immWhy = "duplicate"
+							res.seen("dup-of-acked-delivered")
+						}
 					}
 					sh.got[c.TSN] = true
 					if sh.havePeer {
@@ -478,6 +493,19 @@ func (s *vfSim) runMonitors(mc vfMonCfg) *vfMonOut {
 			if nData > 0 && mc.checkAckDelay && e.Snap != nil && isDataReceiveState(e.Snap.State) && e.Kind == vfWrDeliver {
 				due := e.T + 200*time.Millisecond + mc.ackSlack
 				imm := false
+				if mc.checkImmediate && gapOrDup {
+					// a gap counts only if the receiver itself still sees one once the packet is processed (the
+					// shadow also contains chunks the receiver dropped): its receive queue at the ChunksEnd hook
+					if immWhy == "gap" {
+						gapOrDup = false
+						for ceIdx[side] < len(ces[side]) && ces[side][ceIdx[side]].Seq < e.Seq {
+							ceIdx[side]++
+						}
+						if ceIdx[side] < len(ces[side]) && ces[side][ceIdx[side]].RecvQ > 0 {
+							gapOrDup = true
+						}
+					}
+				}
 				if mc.checkImmediate && gapOrDup {
 					imm = true
 					due = e.T + mc.ackSlack
@@ -596,6 +624,18 @@ func vfCheckStability(res *vfRes, raw []byte, p *vfPkt, side int) {
 func vfCheckSackSound(res *vfRes, sh *vfSideShadow, c *vfChunk, side int) {
 	if !sh.havePeer {
 		return
+	}
+	// what this side itself reported as received (used to recognise true duplicates later)
+	if sh.ownAcked == nil {
+		sh.ownAcked = map[uint32]bool{}
+	}
+	if !sh.haveOwnCum || sna32GT(c.CumTSN, sh.ownCum) {
+		sh.ownCum, sh.haveOwnCum = c.CumTSN, true
+	}
+	for _, g := range c.Gaps {
+		for o := uint32(g[0]); o <= uint32(g[1]) && o-uint32(g[0]) < 4096; o++ {
+			sh.ownAcked[c.CumTSN+o] = true
+		}
 	}
 	base := sh.peerInit - 1
 	if sh.haveSack {
